@@ -85,6 +85,17 @@ class ReplayRandom:
         return False
 
 
+def reverse_map(p):
+    """(namespace, table, name) -> namespace answered by the reverse lookup, for every non-artificial entry"""
+    out = []
+    for ns, ent in p.context._context.items():
+        for kind, tab in ent.items():
+            for name, v in tab.items():
+                if v is not None:
+                    out.append((str(ns), kind, name, str(p.context.get_namespace(v))))
+    return sorted(out)
+
+
 _STAGED = {}
 
 
@@ -155,6 +166,7 @@ def h_roundtrip(eng, tier, lang, sym_draws, part):
         obs.append(Ob('translation-identical|%s' % tl, a == b, dict(case, target=tl)))
     obs.append(Ob('structure-identical', snapshot(p) == snapshot(q) and not P.irdiff(p, q),
                   lambda: dict(case, diff=[str(d)[:200] for d in P.irdiff(p, q)[:3]])))
+    obs.append(Ob('reverse-lookup-identical', reverse_map(p) == reverse_map(q), case))
     # second round trip is stable
     path2 = os.path.join(tmpdir(), 'prog2.bin')
     utils.dump_program(path2, q)
